@@ -474,7 +474,7 @@ class Verifier(Engine):
         # list objects the callee may change: every other list keeps its length and elements
         if ctr.lists is not None:
             refs = []
-            for ex in ctr.lists:
+            for ex in ([] if ctr.lists == '*' else ctr.lists):
                 v, _ = self.spec_value(pre_state, ex, ctr)
                 refs.append(v.t)
             l = z3.Int(fresh_name('l'))
@@ -487,7 +487,8 @@ class Verifier(Engine):
                 new = z3.Const(fresh_name('H_' + f), old.sort())
                 st.heap[f] = new
                 keep = z3.And([l != r for r in refs]) if refs else z3.BoolVal(True)
-                st.pc.append(smt.forall([l], z3.Implies(keep, z3.Select(new, l) == z3.Select(old, l)), patterns=[z3.Select(new, l)]))
+                if ctr.lists != '*':        # '*': any list may change, nothing is kept
+                    st.pc.append(smt.forall([l], z3.Implies(keep, z3.Select(new, l) == z3.Select(old, l)), patterns=[z3.Select(new, l)]))
                 if f == '$len':
                     st.pc.append(smt.forall([l], z3.Select(new, l) >= 0, patterns=[z3.Select(new, l)]))
             # the callee may allocate
@@ -497,7 +498,7 @@ class Verifier(Engine):
             st.pc.append(z3.ForAll([o_], z3.Implies(z3.Select(olda, o_), z3.Select(newa, o_))))
             st.heap['$alloc'] = newa
         # havoc what the callee may modify
-        for fld in ctr.modifies:
+        for fld in [x for f_ in ctr.modifies for x in (('$mhasS', '$mvalS', '$mhasR', '$mvalR') if f_ == '$maps' else (f_,))]:
             if '.' in fld and not fld.startswith('$'):
                 # 'param.field': only that object's field changes (frame: every other object keeps its value)
                 pn, fn_ = fld.split('.', 1)
